@@ -339,6 +339,9 @@ pub fn path_fetches(payload: &Value) -> Vec<(&'static str, Value, Value)> {
         ("default", json!({"var": ["nope.x", {"var": "k"}]}), json!({"k": payload, "nope": 1})),
         ("computed-key", json!({"var": [{"cat": ["a", ".", "b"]}]}), json!({"a": {"b": payload}})),
         ("whole", json!({"var": ""}), payload.clone()),
+        ("str-index-top", json!({"var": "1"}), json!(["decoy", payload])),
+        ("str-index-neg-top", json!({"var": "-1"}), json!(["decoy", "decoy2", payload])),
+        ("str-index-top-bracketed", json!({"var": ["0"]}), json!([payload, "decoy"])),
         ("long-key", json!({"var": "order.shipping.address.line2"}), json!({"order": {"shipping": {"address": {"line1": "decoy", "line2": payload}}}})),
     ]
 }
@@ -556,6 +559,15 @@ pub fn mutated_literals() -> Vec<Value> {
             out.push(format!("{}{}{}", prefix, bad, body));
             out.push(format!("{}{}{}{}", prefix, &body[..n / 2], bad, &body[n / 2..]));
             out.push(format!("{}{} 1", prefix, body));
+        }
+    }
+    // white space around numeric-looking content that holds multi-byte characters (byte offsets computed on
+    // the untrimmed text and applied to the trimmed one, or the reverse, land inside a character)
+    for pad in ["", " ", "  ", "\t", "\u{a0}", "\u{feff}"] {
+        for core in ["1é", "é1", "日本", "1日", "0xé", "+é", "-日", "Iné", "1e日", ".é", "0b😀", "12😀"] {
+            out.push(format!("{}{}", pad, core));
+            out.push(format!("{}{}", core, pad));
+            out.push(format!("{}{}{}", pad, core, pad));
         }
     }
     dedup(out.into_iter().map(Value::String).collect())
